@@ -1,7 +1,7 @@
 """C19 — heap discipline: matching deallocations, no leaks on teardown (DESIGN.md §4 C19)."""
 import os
 import re
-from mirlib import show, Facts, _strip_generics
+from mirlib import Loc,  show, Facts, _strip_generics
 from extract import extract, VERIF
 
 LEVEL = "proof"
@@ -48,7 +48,45 @@ def escape_calls(F):
                         continue  # std macro internals (vec! uses box_assume_init_into_vec_unsafe etc.)
                     out.append((b, loc, sn))
                     break
+        # an escape hatch handed on as a function value (`iter.for_each(mem::forget)`, `map(Box::leak)`) is never the
+        # callee of a call in this body: look at every function item mentioned by an operand or a generic argument
+        def walk(o, found):
+            if isinstance(o, dict):
+                if o.get("k") == "const" and "fn" in o:
+                    found.add(o["fn"])
+                for k_, v in o.items():
+                    if k_ == "gargs":
+                        for g in v:
+                            for m in re.findall(r"\{([^{}]+)\}", g if isinstance(g, str) else ""):
+                                found.add(m)
+                    elif k_ not in ("fn", "decl", "inst", "sp"):
+                        walk(v, found)
+            elif isinstance(o, list):
+                for v in o:
+                    walk(v, found)
+        for bb in sorted(b.reachable):
+            for i, st in enumerate(b.stmts(bb)):
+                found = set()
+                walk(st, found)
+                _note_items(F, b, Loc(bb, i), found, st.get("sp", {}), out)
+            t = b.term(bb)
+            found = set()
+            walk(t, found)
+            _note_items(F, b, Loc(bb, len(b.stmts(bb))), found, t.get("sp", {}), out)
     return out
+
+
+def _note_items(F, b, loc, found, sp, out):
+    x = sp.get("x", []) if isinstance(sp, dict) else []
+    if x and any(m in " ".join(x) for m in ("vec!", "format_args", "derive")):
+        return
+    for fn in sorted(found):
+        full = _strip_generics(fn)
+        sn = F.short(full) if hasattr(F, "short") else full
+        for rx in ESCAPE:
+            if re.search(rx, sn) or re.search(rx, full):
+                out.append((b, loc, sn + " (as a function value)"))
+                break
 
 
 def user_unsafe(F):
@@ -203,7 +241,7 @@ def run(cx):
         pd, pm = extract(os.path.join(VERIF, "engine", "positive"), "R", crate="positive", target_dir=os.path.join(VERIF, ".cache", "tgt-positive"))
         P = Facts(pd)
         phits = {sn for b, loc, sn in escape_calls(P)}
-        need = {"mem::forget", "Box::from_raw", "Box::leak", "Box::into_raw", "Rc::into_raw", "ManuallyDrop::new", "Vec::set_len", "slice::from_raw_parts_mut"}
+        need = {"mem::forget", "Box::from_raw", "Box::leak", "Box::into_raw", "Rc::into_raw", "ManuallyDrop::new", "Vec::set_len", "slice::from_raw_parts_mut", "mem::forget (as a function value)"}
         inst.site("<positive>", None, "positive example: %d/%d constructs matched" % (len(need & phits), len(need)))
         if not need <= phits:
             inst.violation("<checker>", "positive example", "the escape-hatch matcher no longer recognises %s in engine/positive (rule has gone vacuous)" % sorted(need - phits))
